@@ -41,9 +41,24 @@ class Result:
         self.floors = []  # (name, measured, floor)
         self.obligations = []  # (name, discharged: bool)
         self.extra = {}
+        self.optional_rules = set()
+        self.closed = False
 
-    def rule(self, rid, text):
+    def rule(self, rid, text, optional=False):
+        """register a rule; unless `optional`, a run in which the rule examined no instance at all fails closed"""
         self.rules[rid] = text
+        if optional:
+            self.optional_rules.add(rid)
+
+    def close(self):
+        """fail closed on rules that did not engage (called once by finish)"""
+        if self.closed:
+            return
+        self.closed = True
+        seen = {r for (r, k, w, nt, n) in self.instances} | {v.rule for v in self.violations}
+        for rid in self.rules:
+            if rid not in seen and rid not in self.optional_rules and rid != "floor":
+                self.violate("floor", "rule-engaged|%s" % rid, "", "rule %s examined no instance on this tree: its anchors were not found (the rule no longer engages; fail closed)" % rid)
 
     def inst(self, rule, key, where="", nontrivial=True, note=""):
         self.instances.append((rule, key, where, nontrivial, note))
@@ -85,6 +100,7 @@ def load_known():
 def finish(res, explanation, checker_cmd=None, trusted_base=None, tv=None):
     """Print verdict lines, write evidence + replay files, return exit code."""
     global LAST
+    res.close()
     if DRY:
         known_keys0 = {(k["rule"], k["key"]) for k in load_known() if k.get("property") == res.prop and k.get("status") == "open"}
         LAST = [v for v in res.violations if (v.rule, v.key) not in known_keys0]
